@@ -198,3 +198,18 @@ pub struct ControllerView {
     pub sources: Vec<SourceView>,
 }
 
+
+// ---- per-area facade fragments (each owned by one world; keep them compiling) ----
+
+#[path = "facade_source.rs"]
+pub mod source;
+#[path = "facade_server.rs"]
+pub mod server;
+#[path = "facade_keyset.rs"]
+pub mod keyset;
+#[path = "facade_nts.rs"]
+pub mod nts;
+#[path = "facade_packet.rs"]
+pub mod packet;
+#[path = "facade_system.rs"]
+pub mod system;
